@@ -102,6 +102,40 @@ def _api():
             return None
         return b.as_encoded_array([["0|1\t1|1\n", "0/0\t./.\n", "1|0\t0|0\n"][i % 3] for i in range(n)])
 
+    class _UserTable:
+        """a lazily read table of a user-defined one-column list format (bnp's get_bufferclass_for_datatype), made of two
+        concatenated reads so that its text buffer is an ordinary writeable array; rendered as the bytes it writes"""
+        def __init__(self, b, values):
+            from typing import List
+            from bionumpy.bnpdataclass import bnpdataclass
+            from bionumpy.io.delimited_buffers import get_bufferclass_for_datatype
+            self.b = b
+            ns = {"__annotations__": {"sizes": List[int]}}
+            self.bt = get_bufferclass_for_datatype(bnpdataclass(type("Blocks", (), ns)), has_header=True)
+            text = "sizes\n" + "".join(",".join(str(v + j) for j in range(1 + i % 3)) + "\n" for i, v in enumerate(values))
+            import builtins
+            with builtins.open("/sim/user_blocks.txt", "wb") as f:
+                f.write(text.encode())
+            rd = lambda: b.open("/sim/user_blocks.txt", buffer_type=self.bt).read()
+            self.table = np.concatenate([rd(), rd()])
+
+        def _bnpsim_render(self):
+            t = self.table[np.arange(len(self.table))]
+            with self.b.open("/sim/user_blocks_out.txt", "w", buffer_type=self.bt) as w:
+                w.write(t)
+            import builtins
+            with builtins.open("/sim/user_blocks_out.txt", "rb") as f:
+                return f.read().decode("latin1")
+
+    def user_list_table(b, table, fmt):
+        v = _int_col(table, fmt)
+        if not v:
+            return None
+        return _UserTable(b, [abs(int(x)) % 1000 for x in v])
+
+    def f_user_list_field(b, x):
+        return plain(x.table.sizes)
+
     def genotype_rows_matrix(b, table, fmt):
         # the same rows as a C-contiguous 2-D character matrix (not a ragged array): ravel() of it is a view
         n = call(len, table)
@@ -384,6 +418,7 @@ def _api():
             ("phased_genotype_matrix_encode", genotype_rows_matrix, f_to_phased_genotype_rows),
             ("count_overlap_with_empty", intervals, f_count_overlap_empty), ("count_overlap_empty_first", intervals, f_count_overlap_empty_first),
             ("intersect_with_empty", intervals, f_intersect_empty), ("subtract_empty", intervals, f_subtract_empty),
+            ("user_format_list_field_access", user_list_table, f_user_list_field),
             ("sort_intervals", intervals, f_sort), ("merge_intervals", intervals, f_merge),
             ("get_boolean_mask", intervals, f_mask), ("get_pileup", intervals, f_pileup),
             ("get_reverse_complement", dna, f_revcomp), ("get_kmers", dna, f_kmers),
@@ -416,6 +451,9 @@ API = _api()
 
 
 def render_any(x):
+    if hasattr(x, "_bnpsim_render"):
+        r = call(x._bnpsim_render)
+        return "Raised:" + r.type if raised(r) else r
     p = call(plain, x)
     if raised(p):
         return "unrenderable:" + p.type
